@@ -1540,11 +1540,165 @@ Section ConvWf.
   Proof. apply mapM_Forall. apply Forall_forall. intros i _. apply conv_item_wf. Qed.
 End ConvWf.
 
-(* ---- the run ---- *)
+(* ---- items reached through the accessors ---- *)
 
 Lemma set_nth_Forall {A} (P : A -> Prop) n x l : P x -> Forall P l -> Forall P (set_nth n x l).
 Proof.
   intros Px F. revert n. induction F as [|y l Hy F IH]; intros [|n]; cbn [set_nth]; try constructor; auto.
+Qed.
+
+
+Lemma nth_res_nth_error n g : nth_res n g = match nth_error g n with Some x => Ok x | None => Exc EIndexError end.
+Proof. reflexivity. Qed.
+
+(* locate finds the very item the accessor returns *)
+Lemma locate_by_index t idx c :
+  c_get_group_by_index t idx c =
+  match locate (SIdx t idx) c with Ok (_, _, _, x) => Ok x | Exc e => Exc e end.
+Proof.
+  unfold c_get_group_by_index, locate, idx_pos, py_pos. cbn [step_tag].
+  destruct (c_get_group_list t c) as [g|e]; [|reflexivity].
+  destruct ((Z.of_nat (length g) <=? idx)%Z || (idx <? - Z.of_nat (length g))%Z); [reflexivity|].
+  rewrite !nth_res_nth_error.
+  destruct (0 <=? idx)%Z; [destruct (nth_error g (Z.to_nat idx))|destruct (nth_error g (Z.to_nat (Z.of_nat (length g) + idx)))];
+    reflexivity.
+Qed.
+
+Lemma find_group_by_pos gt gv g :
+  find_group gt gv g = match find_group_pos gt gv g with Ok n => nth_res n g | Exc e => Exc e end.
+Proof.
+  induction g as [|x g IH]; cbn [find_group find_group_pos]; [reflexivity|].
+  assert (R : find_group gt gv g =
+              match (match find_group_pos gt gv g with Ok n => Ok (S n) | Exc e => Exc e end) with
+              | Ok n => nth_res n (x :: g) | Exc e => Exc e end).
+  { rewrite IH. destruct (find_group_pos gt gv g); reflexivity. }
+  destruct (c_contains gt x); [|exact R].
+  destruct (c_get gt DRaise x) as [r|e]; [|reflexivity].
+  destruct (rval_is r gv); [reflexivity|exact R].
+Qed.
+
+Lemma locate_by_tag t gt gv c :
+  c_get_group_by_tag t gt gv c =
+  match locate (STag t gt gv) c with Ok (_, _, _, x) => Ok x | Exc e => Exc e end.
+Proof.
+  unfold c_get_group_by_tag, locate. cbn [step_tag].
+  destruct (c_get_group_list t c) as [g|e]; [|reflexivity].
+  rewrite find_group_by_pos. destruct (find_group_pos gt gv g) as [n|e]; [|reflexivity].
+  rewrite nth_res_nth_error. destruct (nth_error g n); reflexivity.
+Qed.
+
+Lemma locate_inv s c k g n x :
+  locate s c = Ok (k, g, n, x) ->
+  k = tag_str (step_tag s) /\ lookup k (items c) = Some (VGrp g) /\ nth_error g n = Some x.
+Proof.
+  unfold locate. rewrite group_list_classes.
+  destruct (lookup (tag_str (step_tag s)) (items c)) as [[s0|g0|k0 x0]|] eqn:L; try discriminate.
+  destruct (match s with SIdx _ idx => _ | STag _ gt gv => _ | SList _ n0 => _ end) as [n0|e]; [|discriminate].
+  destruct (nth_error g0 n0) as [x0|] eqn:N; [|discriminate]. intros H. inversion H; subst. auto.
+Qed.
+
+Lemma assign_same {V} k (v : V) l : lookup k l = Some v -> assign k v l = l.
+Proof.
+  induction l as [|[k' v'] l IH]; cbn; [discriminate|]. destruct (str_eqb k' k) eqn:E.
+  - intros H. now inversion H.
+  - intros H. now rewrite IH.
+Qed.
+
+Lemma set_nth_same {A} n (x : A) l : nth_error l n = Some x -> set_nth n x l = l.
+Proof.
+  revert n. induction l as [|y l IH]; intros [|n]; cbn; try discriminate.
+  - intros H. now inversion H.
+  - intros H. now rewrite IH.
+Qed.
+
+Lemma nth_error_set_nth {A} n (x y : A) l : nth_error l n = Some y -> nth_error (set_nth n x l) n = Some x.
+Proof.
+  revert n. induction l as [|z l IH]; intros [|n]; cbn; try discriminate; [reflexivity|apply IH].
+Qed.
+
+Lemma set_nth_length {A} n (x : A) l : length (set_nth n x l) = length l.
+Proof. revert n. induction l as [|z l IH]; intros [|n]; cbn; try reflexivity. now rewrite IH. Qed.
+
+(* a failing accessor, or a call that leaves the item as it is, leaves the container as it is *)
+Lemma at_path_error {R} path (f : container -> container * R) c c' e :
+  at_path path f c = (c', Exc e) -> c' = c.
+Proof.
+  revert c c'. induction path as [|s path IH]; intros c c'; cbn [at_path].
+  - destruct (f c). discriminate.
+  - destruct (locate s c) as [[[[k g] n] x]|e'] eqn:L; [|intros H; now inversion H].
+    destruct (at_path path f x) as [x' r] eqn:A. intros H. inversion H; subst.
+    apply IH in A. subst x'. destruct (locate_inv _ _ _ _ _ _ L) as (_ & Lk & Ln).
+    rewrite (set_nth_same _ _ _ Ln), (assign_same _ _ _ Lk). apply with_items_id.
+Qed.
+
+Lemma at_path_id {R} path (f : container -> container * R) c :
+  (forall x, fst (f x) = x) -> fst (at_path path f c) = c.
+Proof.
+  intros F. revert c. induction path as [|s path IH]; intros c; cbn [at_path].
+  - specialize (F c). destruct (f c). exact F.
+  - destruct (locate s c) as [[[[k g] n] x]|e'] eqn:L; [|reflexivity].
+    specialize (IH x). destruct (at_path path f x) as [x' r]. cbn [fst] in *. subst x'.
+    destruct (locate_inv _ _ _ _ _ _ L) as (_ & Lk & Ln).
+    rewrite (set_nth_same _ _ _ Ln), (assign_same _ _ _ Lk). apply with_items_id.
+Qed.
+
+(* one accessor call, then f: the container afterwards holds f's item at that position of that group,
+   nothing else moved - the accessor gives back the changed item, and so does every later reading *)
+Lemma at_path_one {R} s (f : container -> container * R) c k g n x :
+  locate s c = Ok (k, g, n, x) ->
+  let c' := fst (at_path [s] f c) in
+  at_path [s] f c = (with_items c (assign k (VGrp (set_nth n (fst (f x)) g)) (items c)), Ok (snd (f x)))
+  /\ c_get_group_list (step_tag s) c' = Ok (set_nth n (fst (f x)) g)
+  /\ nth_error (set_nth n (fst (f x)) g) n = Some (fst (f x))
+  /\ keys c' = keys c /\ mt c' = mt c
+  /\ forall k', k' <> k -> lookup k' (items c') = lookup k' (items c).
+Proof.
+  intros L. destruct (locate_inv _ _ _ _ _ _ L) as (Ek & Lk & Ln).
+  cbn [at_path]. rewrite L. destruct (f x) as [x' r] eqn:F. cbn [fst snd].
+  split; [reflexivity|]. rewrite group_list_classes, items_with_items. subst k.
+  rewrite lookup_assign_same. split; [reflexivity|]. split; [now apply (nth_error_set_nth _ _ x)|].
+  split; [|split; [reflexivity|]].
+  - unfold keys. rewrite items_with_items. apply assign_keys_existing. unfold has. now rewrite Lk.
+  - intros k' N. now apply lookup_assign_other.
+Qed.
+
+Lemma locate_wf s c k g n x :
+  wfc c -> locate s c = Ok (k, g, n, x) -> key_ok k = true /\ Forall wfc g /\ wfc x.
+Proof.
+  intros W L. destruct (locate_inv _ _ _ _ _ _ L) as (_ & Lk & Ln).
+  pose proof (wf_lookup _ _ _ W Lk) as Wg. inversion Wg as [|g' Fg|]; subst. split; [|split].
+  - pose proof (wfc_int_keys _ W) as F. rewrite Forall_forall in F. apply F. unfold keys.
+    apply lookup_In in Lk. apply in_map_iff. now exists (k, VGrp g).
+  - exact Fg.
+  - rewrite Forall_forall in Fg. apply Fg. now apply nth_error_In in Ln.
+Qed.
+
+Lemma at_path_wf {R} path (f : container -> container * R) :
+  (forall x, wfc x -> wfc (fst (f x))) -> forall c, wfc c -> wfc (fst (at_path path f c)).
+Proof.
+  intros F. induction path as [|s path IH]; intros c W; cbn [at_path].
+  - specialize (F c W). destruct (f c). exact F.
+  - destruct (locate s c) as [[[[k g] n] x]|e'] eqn:L; [|exact W].
+    destruct (locate_wf _ _ _ _ _ _ W L) as (K & Fg & Wx). specialize (IH x Wx).
+    destruct (at_path path f x) as [x' r]. cbn [fst] in *.
+    apply wf_assign; [exact W|exact K|]. constructor. now apply set_nth_Forall.
+Qed.
+
+(* ---- the run ---- *)
+
+Lemma apply_lop_wf p o x : Forall wfc p -> wfc x -> wfc (fst (apply_lop p o x)).
+Proof.
+  intros Wp W. destruct o; cbn [apply_lop].
+  - pose proof (set_wf t v replace x W) as H. destruct (c_set t v replace x). exact H.
+  - pose proof (del_wf t x W) as H. destruct (c_del t x). exact H.
+  - assert (H : wfc (fst (c_add_group t (conv_item p it) idx x))).
+    { apply add_group_wf; [exact W|]. intros it'. now apply conv_item_wf. }
+    destruct (c_add_group t (conv_item p it) idx x). exact H.
+  - assert (H : wfc (fst (c_set_group t (mapM (conv_item p) l) x))).
+    { apply set_group_wf; [exact W|]. intros g'. now apply conv_items_wf. }
+    destruct (c_set_group t (mapM (conv_item p) l) x). exact H.
+  - cbn [fst]. destruct x as [[m|] l]; cbn [set_msg_type]; [|exact W]. inversion W; subst. now constructor.
+  - exact W.
 Qed.
 
 Lemma step_wf p o : Forall wfc p -> Forall wfc (fst (step p o)).
@@ -1571,6 +1725,8 @@ Proof.
     apply set_nth_Forall; [|exact W]. eapply group_by_index_wf; [apply V|exact E].
   - cbn [fst]. pose proof (V i) as H. unfold var in *. destruct (nth i p empty) as [[s0|] l]; [|exact W].
     apply set_nth_Forall; [|exact W]. inversion H; subst. now constructor.
+  - pose proof (at_path_wf path (apply_lop p o) (fun x => apply_lop_wf p o x W) (var p i) (V i)) as H.
+    destruct (at_path path (apply_lop p o) (var p i)) as [c r]. cbn [fst] in *. now apply set_nth_Forall.
 Qed.
 
 Lemma init_wf n : Forall wfc (init n).
@@ -1815,3 +1971,34 @@ Lemma query_noncanonical :
   c_get (TStr [32; 53]) DNone c = Ok (RvStr [97]) /\ c_get (TInt 5) DNone c = Ok RvNone
   /\ c_query [TStr [32; 53]] c = Ok [([53], RvNone)] /\ c_query [] c = Ok [([53], RvNone)].
 Proof. cbv zeta. repeat split; vm_compute; reflexivity. Qed.
+
+(* ================================================================ equality follows the current content (history) *)
+
+(* two equal containers; == ; append to an existing group of the first ; == ; same on the second ; == ;
+   replace a tag inside item 0 reached by get_group_by_index ; == ; same change reached by
+   get_group_by_tag on the second ; == *)
+Definition hist_dict : list (tag * dval) :=
+  [(TInt 11, DVal (SVal [111])); (TInt 78, DList [IDict [(TInt 79, DVal (SVal [97])); (TInt 80, DVal (SVal [49]))];
+                                                   IDict [(TInt 79, DVal (SVal [98]))]])].
+Definition hist_ops : list op :=
+  [ONew 0 None hist_dict; ONew 1 None hist_dict; OEq 0 1;
+   OAddGroup 0 (TInt 78) (IDict [(TInt 79, DVal (SVal [99]))]) (-1); OEq 0 1; OEq 1 0;
+   OAddGroup 1 (TStr [55; 56]) (IDict [(TInt 79, DVal (SVal [99]))]) 2; OEq 0 1;
+   OAt 0 [SIdx (TInt 78) 0] (LSet (TInt 80) (SVal [50]) true); OEq 0 1; OEq 1 0;
+   OAt 1 [STag (TInt 78) (TInt 79) [97]] (LSet (TStr [56; 48]) (SVal [50]) true); OEq 0 1;
+   OAt 0 [SList (TInt 78) (-1)] (LDel (TInt 79)); OEq 0 1;
+   OAt 0 [SIdx (TInt 78) 7] (LDel (TInt 79))].
+
+Fixpoint outcomes (p : pool) (ops : list op) : list outcome :=
+  match ops with [] => [] | o :: ops' => let (p', r) := step p o in r :: outcomes p' ops' end.
+
+Lemma eq_follows_history :
+  outcomes (init 2) hist_ops =
+  [RNone; RNone; RBool true;
+   RNone; RBool false; RBool false;
+   RNone; RBool true;
+   RNone; RBool false; RBool false;
+   RNone; RBool true;
+   RNone; RBool false;
+   RExc ETagNotFound].
+Proof. vm_compute. reflexivity. Qed.
